@@ -691,6 +691,10 @@ class Exec:
             for j, (o, oi) in enumerate(self.history)
             if o is not c and o.name == c.name and o.domain == c.domain and o.path.rstrip("/") == c.path.rstrip("/")
         ]
+        set_here = k == "set" and self.ids.get(c.value, {}).get("op") == i
+        # (0) RFC 6265 5.2.3 lower-cases the Domain attribute; a value with upper-case letters that is not accepted
+        if set_here and domain_attr_has_upper(self.ids[c.value]["header"]):
+            return "miss:not-accepted:upper-case-domain-attribute"
         # (1) this very op stored a cookie of the same name and domain whose path differs only in trailing slashes
         if k == "set" and any(j > mine and oi == i and o.path != c.path for j, o, oi in same_slot):
             return "miss:displaced-by-path-differing-in-trailing-slash"
@@ -699,9 +703,7 @@ class Exec:
         if c.expiry > now and any(j < mine and o.expiry <= now for j, o, oi in same_slot):
             return "miss:stale-expiry-of-replaced-cookie"
         if k == "set":
-            if self.ids.get(c.value, {}).get("op") == i:
-                if domain_attr_has_upper(self.ids[c.value]["header"]):
-                    return "miss:not-accepted:upper-case-domain-attribute"
+            if set_here:
                 return "miss:not-accepted"
             return "miss:removed-during-update"
         if k == "query":
